@@ -167,22 +167,29 @@ def tls_check(tier, seed, res):
 
 # ---- the multi-threaded modules (iv_wait, iv_popen, iv_event, iv_signal) under the deterministic scheduler: whatever the
 # library allocated on behalf of a thread must still be referenced, or have been released, whenever the run can go no further
-MT_MODULES = ["c11", "c19", "c08", "c10"]
+MT_MODULES = ["c11", "c19", "c08", "c10", "c12"]      # c12's generator also serves C13: pools, iv_thread children, creator deinit
 
 
 def mt_hygiene(tier, seed, res):
     import importlib, subprocess, tempfile
     per = 150 if tier == "quick" else 1500
     jobs = []
+    from . import sched
+    sched.DISABLED = True       # only the plugins' random families are wanted here
     for name in MT_MODULES:
         mod = importlib.import_module("vlib." + name)
         b = mod.build()
         if not (b[0] if isinstance(b, tuple) else b):
             res.divergences.append((f"T-sched harness of {name} no longer builds", None))
             return
-        for c in list(mod.gen_cases("quick" if tier == "quick" else "thorough", seed))[:per]:
+        gen = mod.gen_cases("C13", "quick" if tier == "quick" else "thorough", seed) if name == "c12" else \
+            mod.gen_cases("quick" if tier == "quick" else "thorough", seed)
+        import itertools
+        for c in itertools.islice(gen, per):
             lines = [x for x in c if isinstance(x, list)][0] if isinstance(c, tuple) else c
             jobs.append((name, mod.HARNESS, c[0] if isinstance(c, tuple) and isinstance(c[0], str) else "case", lines))
+
+    sched.DISABLED = False
 
     def one(job):
         name, harness, cname, lines = job
@@ -200,6 +207,10 @@ def mt_hygiene(tier, seed, res):
             os.unlink(path)
 
     def leak_of(out, err):
+        u = re.findall(r"LEDGER-(\w+) fds=\d+ heap=\d+ leaks=\d+ unjoined=(\d+)", out)
+        if u and u[-1][0] == "END" and u[-1][1] != "0":
+            return (f"{u[-1][1]} thread(s) created by the library had exited when the run ended but were never joined or detached "
+                    "(their stacks and thread control blocks stay allocated)")
         m = re.findall(r"LEDGER-(\w+) fds=\d+ heap=\d+ leaks=(\d+)", out)
         if m and m[-1][1] != "0":
             where = next((l.strip() for l in err.splitlines() if " in iv_" in l or " in __iv_" in l), "")
